@@ -97,6 +97,9 @@ theorem C12_tree_tables :
 re-create them (or nothing may be written on them). -/
 theorem C12_phase_tables : (phaseMutable.isEmpty || phasesRecreatedByReset) = true := by decide +kernel
 
+/-- TableOK (shared entity trie): the lookups the tokenizer performs write nothing on the process-wide trie object. -/
+theorem C12_trie_readonly : trieLookupWrites = [] := by decide +kernel
+
 /-- the instantiated statement for HTMLParser -/
 theorem C12_parser (h : List Call) (hb : ∀ c ∈ h, MutatesOnly parserMutable c.body)
     (c : Call) (hi : IgnoresInitial parserWriteBeforeRead c.body) (s0 : State) :
